@@ -69,7 +69,8 @@ def gen(rep, tier, facet, clauses, palettes=None):
     """palettes: "plain" (0, 1) and / or "collide" (-1, -2: values whose hash() collide); obs facets use both"""
     cfgfile, depth, nvar = GEN[facet][tier]
     if palettes is None:
-        palettes = "plain,collide" if facet.startswith("obs") else "plain"
+        # alias / share: the promotion write also as int -> complex and date -> datetime (other branches of the same code)
+        palettes = "plain,collide" if facet.startswith("obs") else ("plain,complex,temporal" if facet in ("alias", "share") else "plain")
     cfg = open(os.path.join(engine.SPEC, cfgfile)).read().replace("Emit = FALSE", "Emit = TRUE")
     cfg = re.sub(r"MaxDepth = \d+", f"MaxDepth = {depth}", cfg)
     cfg = "\n".join(l for l in cfg.splitlines() if not l.startswith(("INVARIANT", "PROPERTY"))) + "\nACTION_CONSTRAINT EmitT\n"
